@@ -3,7 +3,11 @@
 Oracles: (a) round-trip decode(encode(S)) == S (instructions incl. class identity, app id, version);
 (b) per-flavour opcode/mnemonic tables are injective and dispatch to the class itself (complete
 enumeration); (c) byte level: arbitrary 7-byte commands with a valid opcode either fail to decode
-or are a fixed point of decode . encode . decode, and re-encode to canonical bytes that decode equal.
+or are a fixed point of decode . encode . decode, and re-encode to canonical bytes that decode equal;
+(d) history: a decoding result belongs to the caller - after it was edited in place (array operands relocated,
+instruction fields replaced, list emptied) the same bytes decode to the encoded sequence again; (e) per class,
+every pair of 8-bit operand positions: one operand over all 256 values x the other over a set of small / power-of-two
+values (quick), all 65536 pairs (thorough), plus Hypothesis-drawn full rows.
 """
 from __future__ import annotations
 
@@ -12,14 +16,16 @@ import copy
 from hypothesis import strategies as st
 
 from vlib import gen_instr as g
-from vlib.runner import Ctx, Failure
+from vlib.runner import Ctx, Failure, HarnessError
 
 LEVEL = "exploration"
 RULE = (
     "Hypothesis-generated subroutines (0..40 instructions of one flavour, boundary-biased operands, app ids "
     "0..65535, version bytes 0..255) round-tripped through bytes(); complete enumeration of the opcode/mnemonic "
     "tables; random byte strings with valid opcodes; thorough adds every class x every register position x all 64 "
-    "registers.  Non-trivial = subroutine with >=2 distinct operand shapes or >=1 operand at a width boundary "
+    "registers.  Every round-trip case also edits its decoding results in place (Hypothesis-drawn offset / register) and "
+    "decodes the same bytes again.  Per class and pair of 8-bit operand positions a value grid (256 x special values; "
+    "thorough: 256 x 256) with Hypothesis-drawn registers.  Non-trivial = subroutine with >=2 distinct operand shapes or >=1 operand at a width boundary "
     "(byte-level: decodes successfully); distinct by SHA-1 of the encoded bytes"
 )
 ASSUMPTIONS = ["operand ranges are those of the format (registers 4 banks x 16, u8, i32, uint16 app id)"]
@@ -97,6 +103,22 @@ def check_roundtrip(j) -> None:
     _persistent_deserializer(fname).deserialize_subroutine(_other_bytes())
     if back2.instructions != sub.instructions or back2.app_id != j["app_id"]:
         raise Failure("roundtrip:earlier-result-changed", case, f"the subroutine a reused Deserializer returned changed when it decoded another one: now {[str(i) for i in back2.instructions][:4]}")
+    # a decoding result belongs to whoever asked for it: after the caller edited it in place (arrays relocated, index
+    # registers renamed, instruction fields replaced, list emptied) the same bytes still decode to what was encoded
+    edit = j.get("edit") or _DEFAULT_EDIT
+    ref = g.build_subroutine(j)  # built afresh from the JSON form: shares no object with anything decoded
+    _edit_in_place(back, edit)
+    _edit_in_place(back2, edit)
+    for how, dec in (("fresh", lambda: deserialize(raw, flavour=_flav(fname))), ("long-lived", lambda: _persistent_deserializer(fname).deserialize_subroutine(raw))):
+        try:
+            again = dec()
+        except Exception as e:
+            raise Failure(f"roundtrip:redecode-after-edit-raises:{how}", case, f"decoding the same bytes again ({how} decoder) after an earlier decoding result was edited in place raised {type(e).__name__}: {e}")
+        if again.app_id != j["app_id"] or tuple(again.netqasm_version) != tuple(j["version"]) or len(again.instructions) != len(ref.instructions):
+            raise Failure(f"roundtrip:redecode-after-edit:{how}:header", case, f"after an earlier decoding result was edited in place the same bytes decode ({how} decoder) to app id {again.app_id}, version {again.netqasm_version}, {len(again.instructions)} instructions")
+        for k, (a, b) in enumerate(zip(ref.instructions, again.instructions)):
+            if type(a) is not type(b) or a != b or g.instr_to_json(a) != g.instr_to_json(b):
+                raise Failure(f"roundtrip:redecode-after-edit:{how}:{_operand_kinds(type(a))}", case, f"an earlier decoding result of these bytes was edited in place by its owner (edit {edit}); decoding the same bytes again ({how} decoder) gives instruction {k} = {b} instead of the encoded {a}")
     # in-place edits of the instruction list must show up in the next encoding
     if sub.instructions:
         import copy as _copy
@@ -122,6 +144,182 @@ def check_roundtrip(j) -> None:
             raise Failure(f"roundtrip:reserialise-raises:{how}", case, f"re-serialising after {how} raised {type(e).__name__}: {e}")
         if again.app_id != new_id or again.instructions != sub.instructions or tuple(again.netqasm_version) != tuple(j["version"]):
             raise Failure(f"roundtrip:stale-after-{how}", case, f"after {how} to application {new_id} the encoded bytes decode with app id {again.app_id}, version {again.netqasm_version}")
+
+
+_DEFAULT_EDIT = {"offset": 10, "reg": "C9"}
+
+
+def _operand_kinds(cls) -> str:
+    return "+".join(k for _n, k in g.shape_of(cls)) or "none"
+
+
+def _wrap32(v: int) -> int:
+    return (v - g.I32_MIN) % 2**32 + g.I32_MIN
+
+
+def _edit_in_place(subroutine, edit) -> int:
+    """What the owner of a decoded subroutine may do with ITS copy (a linker-like pass): every array operand is
+    relocated and re-indexed in place, every operand field of every instruction is replaced by another (encodable)
+    operand, finally the application id is changed and the instruction list emptied.  Returns the number of array
+    operands edited in place."""
+    from netqasm.lang import operand as op
+
+    off = edit["offset"]
+    reg = g.reg_from_str(edit["reg"])
+    n = 0
+    for instr in list(subroutine.instructions):
+        for name, kind in g.shape_of(type(instr)):
+            o = getattr(instr, name)
+            if kind == "entry":
+                o.address = op.Address(_wrap32(o.address.address + off))
+                o.index = reg
+                n += 1
+                new = op.ArrayEntry(op.Address(_wrap32(o.address.address + off)), reg)
+            elif kind == "slice":
+                o.address = op.Address(_wrap32(o.address.address + off))
+                o.start, o.stop = o.stop, reg
+                n += 1
+                new = op.ArraySlice(op.Address(_wrap32(o.address.address + off)), reg, reg)
+            elif kind == "reg":
+                new = reg
+            elif kind == "u8":
+                new = op.Immediate((o.value + off) % 256)
+            elif kind == "i32":
+                new = op.Immediate(_wrap32(o.value + off))
+            else:
+                new = op.Address(_wrap32(o.address + off))
+            setattr(instr, name, new)
+    subroutine.app_id = ((subroutine.app_id or 0) + 1) % 65536
+    if subroutine.instructions:
+        subroutine.instructions.reverse()
+        del subroutine.instructions[len(subroutine.instructions) // 2 :]
+    return n
+
+
+st_edit = st.fixed_dictionaries({"offset": st.sampled_from([1, -1, 10, 256, g.I32_MAX]) | st.integers(-1000, 1000).filter(bool), "reg": g.st_reg})
+
+
+def st_array_subroutine(fname: str, max_len: int):
+    few_addr = st.sampled_from([0, 1, 2, 4, g.I32_MAX, g.I32_MIN]) | g.st_i32
+    few_reg = st.sampled_from(["R0", "R1", "R2", "C15", "Q2"]) | g.st_reg
+
+    def operand(kind):
+        if kind == "entry":
+            return st.builds(lambda a, i: {"addr": a, "idx": i}, few_addr, few_reg)
+        if kind == "slice":
+            return st.builds(lambda a, b, e: {"addr": a, "start": b, "stop": e}, few_addr, few_reg, few_reg)
+        return g.st_operand(kind)
+
+    arr = [c for c in g.flavour_classes(fname) if any(k in ("entry", "slice") for _n, k in g.shape_of(c))]
+    one = st.one_of([st.tuples(*[operand(k) for _n, k in g.shape_of(c)]).map(lambda vals, c=c: [c.__name__, c.mnemonic, list(vals)]) for c in arr])
+    return st.fixed_dictionaries(
+        {
+            "flavour": st.just(fname),
+            "app_id": st.sampled_from([0, 65535]) | st.integers(0, 65535),
+            "version": st.tuples(g.st_u8, g.st_u8).map(list),
+            "instrs": st.lists(one | one | g.st_instr(fname), min_size=1, max_size=max_len),
+            "edit": st_edit,
+        }
+    )
+
+
+# ------------------------------------------------------------------ value grids over pairs of 8-bit operands
+
+# values a value-dependent branch of an encoder / decoder typically singles out: small numbers, powers of two and
+# their neighbours, the extremes
+U8_SPECIAL = sorted(set(range(0, 9)) | {15, 16, 17, 31, 32, 33, 63, 64, 127, 128, 255})
+
+
+def u8_pairs(cls):
+    pos = [i for i, (_n, k) in enumerate(g.shape_of(cls)) if k == "u8"]
+    return [(p, q) for p in pos for q in pos if p < q]
+
+
+def check_grid(fname: str, cls, regs, p: int, q: int, pvals, qvals, others: int = 0) -> int:
+    """every (a, b) in pvals x qvals at operand positions p, q of one class (registers `regs`, remaining 8-bit
+    operands `others`), encoded as one subroutine and decoded; the oracle compares the decoded operands with the
+    integers that were put in"""
+    from netqasm.lang.parsing import deserialize
+    from netqasm.lang.subroutine import Subroutine
+
+    shape = g.shape_of(cls)
+    imm = _immediates()
+    fixed = {}
+    ri = 0
+    for i, (name, kind) in enumerate(shape):
+        if kind == "reg":
+            fixed[name] = g.reg_from_str(regs[ri])
+            ri += 1
+        elif kind == "u8":
+            fixed[name] = imm[others]
+        else:
+            raise HarnessError(f"{cls.__name__}: grid over a class with operand kind {kind}")
+    np_, nq = shape[p][0], shape[q][0]
+    grid = [(a, b) for a in pvals for b in qvals]
+    instrs = []
+    for a, b in grid:
+        kw = dict(fixed)
+        kw[np_] = imm[a]
+        kw[nq] = imm[b]
+        instrs.append(cls(**kw))
+
+    def case_of(a, b):
+        vals = []
+        r = 0
+        for i, (_n, kind) in enumerate(shape):
+            if kind == "reg":
+                vals.append(regs[r])
+                r += 1
+            else:
+                vals.append(a if i == p else b if i == q else others)
+        return {"kind": "sub", "flavour": fname, "app_id": 0, "version": [0, 0], "instrs": [[cls.__name__, cls.mnemonic, vals]]}
+
+    try:
+        raw = bytes(Subroutine(instructions=instrs, netqasm_version=(0, 0), app_id=0))
+        got = deserialize(raw, flavour=_flav(fname)).instructions
+    except Exception as e:
+        # find the single instruction that cannot be encoded / decoded
+        for a, b in grid:
+            c = case_of(a, b)
+            try:
+                deserialize(bytes(g.build_subroutine(c)), flavour=_flav(fname))
+            except Exception as e1:
+                raise Failure(f"grid:raises:{fname}:{cls.mnemonic}", c, f"encoding / decoding {cls.mnemonic} with in-range operands {c['instrs'][0][2]} raised {type(e1).__name__}: {e1}")
+        raise Failure(f"grid:raises:{fname}:{cls.mnemonic}", case_of(*grid[0]), f"encoding / decoding {len(grid)} {cls.mnemonic} instructions in one subroutine raised {type(e).__name__}: {e}")
+    if len(got) != len(instrs):
+        raise Failure(f"grid:count:{fname}:{cls.mnemonic}", case_of(*grid[0]), f"{len(instrs)} {cls.mnemonic} instructions decoded as {len(got)}")
+    for (a, b), sent, back in zip(grid, instrs, got):
+        if type(back) is cls and back == sent:
+            continue
+        c = case_of(a, b)
+        raise Failure(f"grid:operand-pair:{fname}:{cls.mnemonic}", c, f"{fname}: '{sent}' (operands {c['instrs'][0][2]}) decoded as '{back}' ({type(back).__name__}): the codec is not lossless at 8-bit operands ({a}, {b}) in positions ({p}, {q})")
+    # independent of the instruction classes' own __eq__: the integers and registers that come back
+    for (a, b), back in zip(grid, got):
+        c = case_of(a, b)
+        if [g.operand_to_json(o) for o in back.operands] != c["instrs"][0][2]:
+            raise Failure(f"grid:operand-pair:{fname}:{cls.mnemonic}", c, f"{fname}: {cls.mnemonic} {c['instrs'][0][2]} decoded with operands {[g.operand_to_json(o) for o in back.operands]}")
+    return len(grid)
+
+
+@functools.lru_cache(maxsize=None)
+def _immediates():
+    from netqasm.lang import operand as op
+
+    return [op.Immediate(v) for v in range(256)]  # frozen dataclass instances: sharing them is harmless
+
+
+def grid_targets():
+    """(flavour, class, p, q) for every class with two or more 8-bit operands, in table order"""
+    out = []
+    for fname in g.FLAVOURS:
+        for cls in g.flavour_classes(fname):
+            for p, q in u8_pairs(cls):
+                out.append((fname, cls, p, q))
+    return out
+
+
+def n_regs(cls) -> int:
+    return sum(1 for _n, k in g.shape_of(cls) if k == "reg")
 
 
 @functools.lru_cache(maxsize=None)
@@ -242,13 +440,20 @@ def shard(ctx: Ctx) -> None:
 
         def body(j):
             shapes = set()
+            shapes_all = []
             bnd = False
             for cname, _m, vals in j["instrs"]:
                 cls = g.class_by_name(j["flavour"], cname)
                 sh = g.shape_of(cls)
                 shapes.add(tuple(k for _n, k in sh))
+                shapes_all.append(tuple(k for _n, k in sh))
                 bnd = bnd or any(g.boundary_hit(k, v) for (_n, k), v in zip(sh, vals))
             labels = [f"flavour:{j['flavour']}"] + (["boundary"] if bnd else []) + [f"len>{10 * (len(j['instrs']) // 10)}"]
+            n_arr = sum(1 for sh in shapes_all if "entry" in sh or "slice" in sh)
+            if n_arr:
+                labels.append("redecode-after-edit:array-operand-edited-in-place")
+            if n_arr >= 2:
+                labels.append("redecode-after-edit:>=2-array-operands")
             nt = len(shapes) >= 2 or bnd
             sample = None
             if nt and len(stt.samples) < stt.MAX_SAMPLES and len(j["instrs"]) <= 4:
@@ -257,12 +462,53 @@ def shard(ctx: Ctx) -> None:
             check_roundtrip(j)
 
         ctx.search(g.st_subroutine(fname, 40), body, n_sub, name=f"c01-{fname}", salt=fi)
+        # the same oracles on subroutines dense in array operands (few addresses / registers, so equal operands recur
+        # within one subroutine and from one case to the next), with a Hypothesis-drawn in-place edit
+        ctx.search(st_array_subroutine(fname, 12), body, 250 if ctx.tier == "quick" else 3000, name=f"c01-arrays-{fname}", salt=20 + fi)
 
         def body_b(raw, fname=fname):
             ok = check_bytes(fname, raw)
             stt.case(raw, ok, ["bytes:decoded" if ok else "bytes:rejected"])
 
         ctx.search(st_bytes(fname), body_b, n_bytes, name=f"c01-bytes-{fname}", salt=10 + fi)
+
+    # ---- per class, per pair of 8-bit operand positions: value grids (an encoder / decoder overridden in one branch of
+    # the class hierarchy, or a value-dependent branch, shows only for particular classes and operand values)
+    targets = grid_targets()
+    full = list(range(256))
+    n_grid = 0
+    for ti, (fname, cls, p, q) in enumerate(targets):
+        if ti % ctx.nshards != ctx.shard:
+            continue
+        regs = [f"Q{i}" for i in range(n_regs(cls))]
+        for pv, qv in ((full, full),) if ctx.thorough() else ((full, U8_SPECIAL), (U8_SPECIAL, full)):
+            case = {"kind": "grid", "flavour": fname, "cls": cls.__name__, "regs": regs, "p": p, "q": q, "pvals": "all" if pv is full else "special", "qvals": "all" if qv is full else "special", "others": 0}
+            n = [0]
+
+            def one_grid():
+                n[0] = check_grid(fname, cls, regs, p, q, pv, qv)
+
+            ctx.attempt(case, one_grid)
+            n_grid += n[0]
+            stt.case(["grid", fname, cls.__name__, p, q, len(pv), len(qv)], True, [f"grid:{fname}:{cls.mnemonic}"])
+    stt.exhaustive_domains["class x pair of 8-bit operand positions x (256 x 256 values)" if ctx.thorough() else f"class x pair of 8-bit operand positions x (256 x {len(U8_SPECIAL)} special values, both ways)"] = n_grid
+
+    # Hypothesis-drawn rows of the same grids: any class, any pair of positions, one operand fixed at any value, the other
+    # over all 256, any registers, any value for the remaining 8-bit operands
+    def st_row():
+        def of(t):
+            fname, cls, p, q = t
+            return st.tuples(st.lists(g.st_reg, min_size=n_regs(cls), max_size=n_regs(cls)), g.st_u8, st.booleans(), g.st_u8).map(
+                lambda r: {"kind": "grid", "flavour": fname, "cls": cls.__name__, "regs": r[0], "p": p, "q": q, "pvals": [r[1]] if r[2] else "all", "qvals": "all" if r[2] else [r[1]], "others": r[3]}
+            )
+
+        return st.sampled_from(targets).flatmap(of)
+
+    def body_row(d):
+        nrow = run_grid_case(d)
+        stt.case(d, nrow > 1, [f"grid-row:{d['flavour']}:{g.class_by_name(d['flavour'], d['cls']).mnemonic}"])
+
+    ctx.search(st_row(), body_row, 150 if ctx.tier == "quick" else 1500, name="c01-grid-rows", salt=30)
 
     if ctx.thorough():
         # every class x every register operand position x all 64 registers (sharded round-robin)
@@ -299,10 +545,20 @@ def shard(ctx: Ctx) -> None:
         stt.exhaustive_domains["class x register position x 64 registers"] = n
 
 
+def _vals_of(v):
+    return list(range(256)) if v == "all" else U8_SPECIAL if v == "special" else list(v)
+
+
+def run_grid_case(d) -> int:
+    return check_grid(d["flavour"], g.class_by_name(d["flavour"], d["cls"]), d["regs"], d["p"], d["q"], _vals_of(d["pvals"]), _vals_of(d["qvals"]), d.get("others", 0))
+
+
 def replay(case):
     try:
         if case["kind"] == "sub":
-            check_roundtrip({k: case[k] for k in ("flavour", "app_id", "version", "instrs")})
+            check_roundtrip({k: case[k] for k in ("flavour", "app_id", "version", "instrs", "edit") if k in case})
+        elif case["kind"] == "grid":
+            run_grid_case(case)
         elif case["kind"] == "bytes":
             check_bytes(case["flavour"], bytes.fromhex(case["hex"]))
         elif case["kind"] == "table":
